@@ -144,6 +144,17 @@ class Check:
             print("MODEL-DRIFT: property=%s %d executions differ from the machine layer but are accepted by the ideal layer"
                   % (self.pid, self.cov["model_drift"]))
         if self.violations:
+            sigs = {}
+            for v in self.violations:
+                k = json.dumps(v["signature"], sort_keys=True, default=str)
+                sigs[k] = sigs.get(k, 0) + 1
+            self.cov["violation_signatures"] = [{"signature": json.loads(k), "count": n} for k, n in sorted(sigs.items(), key=lambda x: -x[1])[:40]]
+            # one replay file per distinct signature first, so that every kind of violation has a witness on disk
+            first = {}
+            for v in self.violations:
+                first.setdefault(json.dumps(v["signature"], sort_keys=True, default=str), v)
+            self.n_violations = len(self.violations)
+            self.violations = list(first.values()) + [v for v in self.violations if v not in first.values()][:max(0, 50 - len(first))]
             rc = 1
             d = os.path.join(REPLAYS, self.pid)
             os.makedirs(d, exist_ok=True)
@@ -159,7 +170,7 @@ class Check:
                 print("VIOLATION property=%s replay=%s" % (self.pid, p))
         ev = {"property_id": self.pid, "tier": self.tier, "seed": self.seed, "level": LEVEL,
               "coverage": self.cov, "assumptions": self.assumptions, "wall_s": round(time.time() - self.t0, 2),
-              "violations": len(self.violations)}
+              "violations": getattr(self, "n_violations", len(self.violations))}
         if not self.cov["samples"]:
             self.cov["samples"].append("none recorded")
         with open(os.path.join(EVIDENCE, self.pid + ".json"), "w") as f:
